@@ -8,6 +8,7 @@ def mkHeap (nodes : List Sexp) : Heap :=
   let recs : List (Nat × Int × Nat × List Nat) := nodes.map fun n =>
     match n.items with
     | [k, p, c, ch] => (k.nat?.getD 0, p.int?.getD (-1), c.nat?.getD 0, ch.natList)
+    | [k, p, c, ch, _] => (k.nat?.getD 0, p.int?.getD (-1), c.nat?.getD 0, ch.natList)
     | _ => (0, -1, 0, [])
   let arr := recs.toArray
   { kind := fun i => (arr.getD i (0, -1, 0, [])).1
@@ -35,7 +36,15 @@ def parseOp (s : Sexp) : Option Op :=
   | [.atom "setchildren", p, xs] => do pure (.setChildren (← p.nat?) xs.natList)
   | [.atom "popall", p] => do pure (.popAll (← p.nat?))
   | [.atom "detach", x] => do pure (.detach (← x.nat?))
-  | [.atom "replace", x, y] => do pure (.replaceWith (← x.nat?) (← y.nat?))
+  | [.atom "replace", x, y] => do pure (.replaceWith (← x.nat?) (← y.nat?) true)
+  | [.atom "replace", x, y, k] => do pure (.replaceWith (← x.nat?) (← y.nat?) ((← k.nat?) != 0))
+  | [.atom "appendnamed", p, x] => do pure (.appendNamedArg (← p.nat?) (← x.nat?))
+  | [.atom "insertnamed", p, i, x] => do pure (.insertNamedArg (← p.nat?) (← i.int?) (← x.nat?))
+  | [.atom "setslice", p] => do pure (.setslice (← p.nat?))
+  | [.atom "delslice", p] => do pure (.delslice (← p.nat?))
+  | [.atom "setchildren-nonlist", p] => do pure (.setChildrenNonList (← p.nat?))
+  | [.atom "replace-nonnode", x] => do pure (.replaceWithNonNode (← x.nat?))
+  | [.atom "replace-badflag", x, y] => do pure (.replaceWithBadFlag (← x.nat?) (← y.nat?))
   | _ => none
 
 def showOutcome : Outcome → String
@@ -48,22 +57,104 @@ def showHeap (n : Nat) (h : Heap) : String :=
       (if h.ctor i then "1" else "0") ++ " " ++ showList toString (h.children i) ++ ")")
     (List.range n)
 
-/-- input `((node ...) (op ...))`; output one `(outcome heap)` per operation -/
+def parseListOp (s : Sexp) : Option ListOp :=
+  match s.items with
+  | [.atom "append", x] => do pure (.append (← x.nat?))
+  | [.atom "insert", i, x] => do pure (.insert (← i.int?) (← x.nat?))
+  | [.atom "extend", xs] => pure (.extend xs.natList)
+  | [.atom "iadd", xs] => pure (.iadd xs.natList)
+  | [.atom "setitem", i, x] => do pure (.setitem (← i.int?) (← x.nat?))
+  | [.atom "delitem", i] => do pure (.delitem (← i.int?))
+  | [.atom "pop", i] => do pure (.pop (← i.int?))
+  | [.atom "remove", x] => do pure (.remove (← x.nat?))
+  | [.atom "reverse"] => pure .reverse
+  | [.atom "clear"] => pure .clear
+  | [.atom "sort"] => pure .sort
+  | [.atom "imul"] => pure .imul
+  | [.atom "setslice"] => pure .setslice
+  | [.atom "delslice"] => pure .delslice
+  | _ => none
+
+def parseName (n l : Sexp) : Option (Option ArgName) := do
+  let i ← n.int?
+  if i < 0 then pure none else pure (some ⟨i.toNat, (← l.nat?) != 0⟩)
+
+inductive DOp where
+  | h (o : HOp)      -- node operations that do not look at names, and handle operations
+  | c (o : COp)      -- operations involving `_argument_names`
+
+def parseDOp (s : Sexp) : Option DOp :=
+  match s.items with
+  | [.atom "via", k, l] => do pure (.h (.via (← k.nat?) (← parseListOp l)))
+  | [.atom "take", p] => do pure (.h (.take (← p.nat?)))
+  | [.atom "replace", x, y] => do pure (.c (.replaceWith (← x.nat?) (← y.nat?) true))
+  | [.atom "replace", x, y, k] => do pure (.c (.replaceWith (← x.nat?) (← y.nat?) ((← k.nat?) != 0)))
+  | [.atom "appendnamed", p, x] => do pure (.c (.appendNamed (← p.nat?) none (← x.nat?)))
+  | [.atom "appendnamed", p, x, n, l] => do pure (.c (.appendNamed (← p.nat?) (← parseName n l) (← x.nat?)))
+  | [.atom "insertnamed", p, i, x] => do pure (.c (.insertNamed (← p.nat?) none (← i.int?) (← x.nat?)))
+  | [.atom "insertnamed", p, i, x, n, l] =>
+    do pure (.c (.insertNamed (← p.nat?) (← parseName n l) (← i.int?) (← x.nat?)))
+  | [.atom "replacenamed", p, n, l, y] => do
+    match ← parseName n l with
+    | none => none
+    | some nm => pure (.c (.replaceNamed (← p.nat?) nm (← y.nat?)))
+  | [.atom "argnames", p] => do pure (.c (.argumentNames (← p.nat?)))
+  | _ => (parseOp s).map fun o => .c (.plain o)
+
+def mkNames (nodes : List Sexp) : Id → List Entry :=
+  let arr := (nodes.map fun n =>
+    match n.items with
+    | [_, _, _, _, nm] => nm.items.filterMap fun e =>
+        match e.items with
+        | [a, n, l] => do
+          let a ← a.nat?
+          let i ← n.int?
+          pure (a, if i < 0 then none else some ⟨i.toNat, (l.nat?.getD 0) != 0⟩)
+        | _ => none
+    | _ => []).toArray
+  fun i => arr.getD i []
+
+def showNames (n : Nat) (t : Id → List Entry) : String :=
+  showList (fun i => showList (fun (e : Entry) =>
+      "(" ++ toString e.1 ++ " " ++ (match e.2 with
+        | none => "-1 0"
+        | some m => toString m.id ++ " " ++ (if m.lower then "1" else "0")) ++ ")") (t i))
+    (List.range n)
+
+/-- input `((node ...) (op ...))`, node = `(kind parent ctor (children) ((arg name lower)...))`;
+output one `(outcome heap names)` per operation.  The history runs on the named-argument model
+`cstep`; ChildrenList methods through handles (`via`) run on the handle model `hstep`, with one
+handle per node taken at the start (handle k = node k's list).
+`(stale (node ...) p (xs ...) (method args))`: `lst = p.children; p.children = xs; lst.method(args)`
+on the PINNED setter model; output `(outcome1 outcome2 heap (stale items))`. -/
 def handle (s : Sexp) : String :=
   match s.items with
-  | [nodes, ops] =>
+  | [.atom "stale", nodes, p, xs, l] =>
     let h0 := mkHeap nodes.items
     let n := nodes.items.length
-    let rec go (h : Heap) (os : List Sexp) (acc : List String) : List String :=
+    match parseListOp l with
+    | none => "bad-op"
+    | some lop =>
+      let r1 := hstepPinned Gen.kinds ⟨h0, []⟩ (.cur (.setChildren (p.nat?.getD 0) xs.natList))
+      let r2 := hstepPinned Gen.kinds r1.1 (.viaStale 0 lop)
+      "(" ++ showOutcome r1.2 ++ " " ++ showOutcome r2.2 ++ " " ++ showHeap n r2.1.heap ++ " " ++
+        showList toString ((r2.1.stale.head?.map (·.items)).getD []) ++ ")"
+  | [nodes, ops] =>
+    let n := nodes.items.length
+    let handles := List.range n
+    let rec go (st : CState) (os : List Sexp) (acc : List String) : List String :=
       match os with
       | [] => acc.reverse
       | o :: rest =>
-        match parseOp o with
+        match parseDOp o with
         | none => ("bad-op" :: acc).reverse
         | some op =>
-          let r := step Gen.kinds h op
-          go r.1 rest (("(" ++ showOutcome r.2 ++ " " ++ showHeap n r.1 ++ ")") :: acc)
-    "(" ++ " ".intercalate (go h0 ops.items []) ++ ")"
+          let r : CState × Outcome := match op with
+            | .c co => cstep Gen.kinds st co
+            | .h ho => let r := hstep Gen.kinds ⟨st.heap, handles⟩ ho; ({ st with heap := r.1.heap }, r.2)
+          go r.1 rest (("(" ++ showOutcome r.2 ++ " " ++ showHeap n r.1.heap ++ " " ++
+            showNames n r.1.names ++ ")") :: acc)
+    "(" ++ " ".intercalate (go ⟨mkHeap nodes.items, mkNames nodes.items⟩ ops.items []) ++ ")"
   | _ => "bad-line"
 
 def main : IO Unit := run handle
